@@ -30,5 +30,6 @@ c12_sys_limit_ignored C12
 revert_restore_expirations C11
 revert_zero_jittered_ttl C10
 log_guard_wrong_level C04
+c16_key_copy_after_go C16
 c07_nil_value_is_miss C07
 LIST
